@@ -3,7 +3,7 @@
 EXTENDS Decl, Json
 VARIABLE l
 TraceRecs == ndJsonDeserialize("trace.ndjson")
-Props == {"C19", "DRIFT"}
+Props == {"C19", "C15", "DRIFT"}
 B(x) == IF x THEN 1 ELSE 0
 
 OptEq(so, oo) ==
@@ -36,6 +36,7 @@ Judge(rec) ==
       grey == b.grey \/ b.err = "unspec"
       good == ~crashed /\ (grey \/ (o.err = b.err /\ (b.err = "none" => ModelEq(b.model, o))))
   IN [C19 |-> good, DRIFT |-> good,
+      C15 |-> crashed \/ ~("distinct" \in DOMAIN o) \/ o.distinct <= 1,          \* repeated on fresh parsers: the same model or the same error, message included
       grey |-> B(grey), ok |-> B(~grey /\ b.err = "none"), errtag |-> B(b.err = "ErrTag"), errdup |-> B(b.err = "ErrDuplicatedFlag"),
       errshort |-> B(b.err = "ErrShortNameTooLong"), errbool |-> B(b.err = "ErrInvalidTag")]
 
